@@ -281,8 +281,8 @@ func runMConn1(t *tctx) {
 		}
 		// a side whose handshake fails returns while the other may still wait for bytes: a deadline, and closing both
 		// ends at the first failure, keep that from hanging
-		s1.SetDeadline(time.Now().Add(60 * time.Second))
-		r2.SetDeadline(time.Now().Add(60 * time.Second))
+		s1.SetDeadline(time.Now().Add(30 * time.Second))
+		r2.SetDeadline(time.Now().Add(30 * time.Second))
 		chS, chR := make(chan res, 1), make(chan res, 1)
 		go func() { sc, err := p2p.MakeSecretConnection(s1, keyA); chS <- res{sc, err} }()
 		go func() { sc, err := p2p.MakeSecretConnection(r2, keyB); chR <- res{sc, err} }()
